@@ -167,12 +167,11 @@ impl<SE: extensions::ShellExtensions> Clone for Shell<SE> {
             version: self.version.clone(),
             product_display_str: self.product_display_str.clone(),
             call_stack: {
-                // Subshells must not inherit the parent's "currently handling signal X"
-                // state; otherwise a trap handler that spawns a subshell would see itself
-                // as already inside that handler and skip re-entrant delivery.
-                let mut cs = self.call_stack.clone();
-                cs.clear_active_trap_signals();
-                cs
+                // A subshell started from inside a trap handler is still inside that handler
+                // (bash's forked child keeps the "in progress" mark of the running trap):
+                // forgetting it lets a failing command in `trap '…; ( cmd )' ERR` re-enter the
+                // handler in every nested subshell without bound.
+                self.call_stack.clone()
             },
             directory_stack: self.directory_stack.clone(),
             completion_config: self.completion_config.clone(),
